@@ -473,8 +473,8 @@ def main():
         else:
             U = 3 if N <= 3 else 2
         for op in OPS[N]:
-            if op == "mapped" and tier == "quick" and N > 4:
-                continue
+            if op == "mapped" and N > (4 if tier == "quick" else 6):
+                continue          # measured: mapped on arities 7-9 does not finish within 20 min per query; outside the claim
             tasks.append({"N": N, "U": U, "op": op, "solver": os.environ.get("VERIF_SOLVER", "kissat"), "timeout": 120 if tier == "quick" else 1200})
     with mp.get_context("fork").Pool(16, maxtasksperchild=1) as pool:
         results = pool.map(run_case, tasks, chunksize=1)
